@@ -159,7 +159,9 @@ def blind_alignment_restores_order(aligner, metric, algorithm, cfg, base, perm):
         al = pa.GreedyPermutationAlignment(metric, algorithm)
     else:
         al = pa.DHTVPermutationAlignment(**cfg, similarity_metric=metric, algorithm=algorithm)
-        plan = al.alignment_plan
+        # the premise is judged on the documented plan construction, not on the library's own alignment_plan
+        plan = pyref.ref_plan(F, cfg['segment_start'], cfg['segment_width'], cfg['segment_shift'],
+                              cfg['main_iterations'], cfg['sub_iterations'])
         lo, hi = plan[0][1], plan[0][2]
         cols = [tuple(perm[:, f]) for f in range(lo, hi)]
         maj = max(cols.count(c) for c in set(cols)) / len(cols)
@@ -242,7 +244,7 @@ def search(ctx):
         perm = gen.random_perm_field(rng, K, F)
         aligner = 'greedy' if mode == 'greedy' else 'dhtv'
         if aligner == 'dhtv':
-            plan = pa.DHTVPermutationAlignment(**cfg).alignment_plan
+            plan = pyref.ref_plan(F, cfg['segment_start'], cfg['segment_width'], cfg['segment_shift'])
             lo, hi = plan[0][1], plan[0][2]
             idx = np.arange(lo, hi)
             keep = rng.permutation(idx)[: int(np.ceil(rng.uniform(0.7, 1.0) * len(idx)))]
